@@ -38,6 +38,10 @@ Definition B_VREWBAL : N := 10.   (* rwcum_balance_<validator>    matured reward
 Definition B_VREWWD : N := 11.    (* rwcum_withdrawn_<validator>  withdrawn so far       *)
 Definition B_VREWPEND : N := 12.  (* rwz_<validator>_<interval>   interval rewards       *)
 
+(* bid app: the amount locked by the active bid offer of a conversation (no escrow account exists: the value lives in the offer
+   record only); owner = the bidder, sub = conversation.  Counted in the chain total and in the bidder's holdings. *)
+Definition B_BIDESCROW : N := 13.
+
 Definition CUR_OLT : N := 0.
 
 Notation ledger := (gmap key Z) (only parsing).
@@ -59,7 +63,7 @@ Definition total (c : N) (l : ledger) : Z := wsum (tw c) l.
    delegated and undelegating amounts, delegation reward claims (not: fee shares, proposal escrow) *)
 Definition holding_bucket (b : N) : bool :=
   (b =? B_BAL)%N || (b =? B_STAKE)%N || (b =? B_UNSTAKE)%N || (b =? B_WITHDRAW)%N ||
-  (b =? B_UNDELEG)%N || (b =? B_REWBAL)%N || (b =? B_REWPEND)%N || (b =? B_DELEGACT)%N.
+  (b =? B_UNDELEG)%N || (b =? B_REWBAL)%N || (b =? B_REWPEND)%N || (b =? B_DELEGACT)%N || (b =? B_BIDESCROW)%N.
 Definition hw (a c : N) (k : key) : Z :=
   if (k_owner k =? a)%N && (k_cur k =? c)%N && holding_bucket (k_bucket k) then 1 else 0.
 Definition holdings (a c : N) (l : ledger) : Z := wsum (hw a c) l.
